@@ -319,7 +319,7 @@ func runC02(c *Ctx) {
 		"(3) the emitted template contains the x86 instruction that implements the mnemonic's operation and signedness (setl/setb..., idiv/div, sar/shr, rol/ror, movsx/movzx, cvtt*, round* mode) and none of the confusable ones; " +
 		"(4) non-commutative templates load the left operand (second popped) first; (5) operand, result and memory access widths (byte/word/dword/qword) match the value types; remainder results come from rdx, quotients from rax. " +
 		"(6) structural rules on the code around the templates: label lookup innermost-first, list pops last-to-first, every label an arm defines carries an id made at that site, literal immediates of 64-bit ALU instructions fit 32 bits, locals zeroed over the whole slot, numeric local indices params-then-locals, x rem_s -1 guarded, carried results moved upwards, slot addresses R0Base - n*8 - 8, no argument register written by name while arguments are loaded, element offsets scaled, float values emitted as bit patterns, the embedded engine's memory.grow cannot wrap. " +
-		"NOT decided: the full semantics of each assembly template (flags, traps, NaN handling), the stack model of blocks and branches beyond these rules, the runtime helpers, assembler and linker."
+		"(7) the numeric arms are interpreted over a model of the x86-64 instructions they use for a grid of boundary operands and compared with WebAssembly's result (x64-template-semantics, x64-conversion-semantics, x64-minmax-semantics). NOT decided: traps (operands WebAssembly traps on are not evaluated), NaN payloads, loads/stores against a real memory, the stack model of blocks and branches beyond these rules, the runtime helpers, assembler and linker."
 	c.Trusted = []string{"go/packages, go/types (x/tools v0.29.0)", "embedded WebAssembly instruction table", "x86-64 mnemonic table in c02.go (condition codes, sign/zero extension, rounding immediates)"}
 	c.Exhaust = true
 	p := c.Load(LoadOpt{Light: true}, "./internal/wat/token", "./internal/native/wat2x64", "./internal/native/wat2la", "./internal/native/wat2rv", "./internal/native/wat2arm64", "./internal/wat/watutil/wat2c", "./internal/3rdparty/wazero/internal/wasm")
